@@ -12,6 +12,7 @@ import (
 	"sync"
 
 	"github.com/wolimst/lib-secs2-hsms-go/pkg/ast"
+	"github.com/wolimst/lib-secs2-hsms-go/pkg/parser/hsms"
 )
 
 func init() {
@@ -220,7 +221,7 @@ func driverBig(c *Ctx) {
 	for _, f := range allFormats {
 		for _, n := range bigSizes(f, c.Tier) {
 			idx++
-			if c.want(idx) && n >= 0 {
+			if c.want(idx) && n >= 0 && c.Arg != "flat" {
 				jobs = append(jobs, job{idx, f, n})
 			}
 		}
@@ -249,11 +250,58 @@ func driverBig(c *Ctx) {
 	// what the decoder reads for one length field must not depend on the one before
 	for _, kids := range seqCases() {
 		idx++
-		if c.want(idx) {
+		if c.want(idx) && c.Arg != "flat" {
 			c.emit(idx, seqEvent(kids))
 			c.count("big.seq")
 		}
 	}
+	// very many small items in one list - empty lists, empty binaries, lists of one empty binary - and one more list
+	// behind them: well-formed, however many there are
+	counts := []int{65537, 100001, 250000}
+	if c.Tier == "thorough" {
+		counts = append(counts, 1000000, 4000000)
+	}
+	for _, kind := range []string{"L0", "B0", "L1B0"} {
+		for _, n := range counts {
+			idx++
+			if c.want(idx) {
+				c.emit(idx, flatEvent(kind, n))
+				c.count("big.flat")
+			}
+		}
+	}
+}
+
+func flatEvent(kind string, n int) J {
+	kids := make([]interface{}, n)
+	for i := range kids {
+		switch kind {
+		case "L0":
+			kids[i] = ast.NewListNode()
+		case "B0":
+			kids[i] = ast.NewBinaryNode()
+		default:
+			kids[i] = ast.NewListNode(ast.NewBinaryNode())
+		}
+	}
+	item := ast.NewListNode(ast.NewListNode(kids...), ast.NewListNode(ast.NewUintNode(1, 7)))
+	msg := ast.NewHSMSDataMessage("", 1, 1, 0, "H->E", item, 7, []byte{1, 2, 3, 4}).ToBytes()
+	item, kids = nil, nil
+	nh := 0
+	var m ast.HSMSMessage
+	var ok bool
+	decodeMu.Lock()
+	hsms.VerifItemHook = func(pos, code, nl, length int) { nh++ }
+	in := exact(msg)
+	panicked, _ := try(func() { m, ok = hsms.Parse(in) })
+	hsms.VerifItemHook = nil
+	decodeMu.Unlock()
+	scribbleBytes(in)
+	ev := J{"ev": "bigflat", "kind": kind, "n": n, "ok": ok && !panicked, "same": false, "msglen": len(msg), "nh": nh}
+	if ok && !panicked {
+		ev["same"] = string(m.ToBytes()) == string(msg)
+	}
+	return ev
 }
 
 type seqKid struct {
